@@ -56,7 +56,12 @@ inside a task, or ``meta-generation-ExcType``.  Known mechanisms are recognised 
 each (see ``make_label``): ``partition-wise-evaluation:value-dependent-dtype`` (the dask value equals pandas applied to
 every input partition separately: pandas' own value-dependent upcast decided per partition),
 ``aligned-operands:mismatched-divisions``, ``apply:axis1:empty-partition:*``, ``other:assign:*``,
-``expr-node:<site>``.
+``expr-node:<site>``; ``map:na_action=ignore:not-applied`` (the dask value equals pandas running the same program
+with every ``na_action="ignore"`` removed), ``astype-dict:selected-column-name-contains-a-key:KeyError``,
+``per-column-argument:<kind>:then-column-selection:*`` (a step whose argument is given per column - dict keyed by
+column, one entry per column, a frame, a user meta - followed by a column selection; kind in isin-dict / round-dict /
+replace-dict / fillna-frame / clip-list / binop-list / map-frame-meta) and
+``other:unknown-divisions:equal-partition-counts:paired-without-alignment``.
 
 Calibration (unchanged tree)
 ----------------------------
@@ -602,6 +607,50 @@ def _rank(fam):
     return _RANK.index(head) if head in _RANK else len(_RANK)
 
 
+NA_ACTION_DROPPED = "map:na_action=ignore:not-applied"
+
+
+def without_na_action(desc):
+    """the same description with every na_action="ignore" replaced by None (None when there is none)"""
+    found = [False]
+
+    def walk(o):
+        if isinstance(o, list):
+            if len(o) > 4 and o[0] == "map" and o[4] == "ignore":
+                found[0] = True
+                return [walk(x) for x in o[:4]] + [None]
+            return [walk(x) for x in o]
+        if isinstance(o, dict):
+            out = {k: walk(v) for k, v in o.items()}
+            if o.get("op") == "frame_map" and o.get("na_action") == "ignore":
+                found[0] = True
+                out["na_action"] = None
+            return out
+        return o
+
+    out = dict(desc)
+    out["steps"] = walk(desc["steps"])
+    return out if found[0] else None
+
+
+def na_action_not_applied(desc, case, val):
+    """True when the dask value equals what pandas computes for the SAME program with every na_action="ignore" removed:
+    the keyword did not reach the partitions"""
+    from vf.gen import c36_pipelines as P
+    from vf.gen import frames as F
+
+    d2 = without_na_action(desc)
+    if d2 is None:
+        return False
+    try:
+        exp2 = P.apply(d2, case["pdf"], False, other=case["opdf"])
+        if desc.get("unordered"):
+            val, exp2 = val.sort_index(kind="stable"), exp2.sort_index(kind="stable")
+        return F.compare(val, exp2, ordered=True) is None
+    except Exception:  # noqa: BLE001
+        return False
+
+
 def per_column_argument_then_selection(steps):
     """kind of the first step whose argument is given per column (mapping keyed by column / one entry per column /
     a frame / a user meta describing every column) when a LATER step selects columns, else None"""
@@ -657,7 +706,7 @@ def make_label(mini, layout, key, message=""):
     if "Only the Series name can be used for the key in Series dtype mappings" in message:
         return "astype-dict:selected-column-name-contains-a-key:KeyError"
     pc = per_column_argument_then_selection(steps)
-    if pc is not None and layout == "any-layout":
+    if pc is not None and (layout == "any-layout" or exc):
         return "per-column-argument:%s:then-column-selection:%s" % (pc, "exception" if exc else "wrong-result")
     if key == "IndexingError@compute" and any(
             st["op"] in ("filter", "sfilter") and isinstance(st.get("pred"), list) and st["pred"][:2] == ["bin", "|"]
@@ -778,6 +827,11 @@ def run_case(case, ctx):
                 # aligned operands: rows that got a NaN from the alignment were filtered away again; pandas upcast the
                 # whole column, dask only the partitions that saw a NaN
                 label = PARTITIONWISE
+    if status == "neq" and "val" in info:
+        with warnings.catch_warnings():
+            warnings.simplefilter("ignore")
+            if na_action_not_applied(desc, c, info["val"]):
+                label = NA_ACTION_DROPPED
     if status == "neq" and key != "dtype" and label != PARTITIONWISE and c["other_unknown"] and c["oddf"] is not None \
             and c["oddf"].npartitions == ddf.npartitions and any(":unknown-divisions" in k for k in mini["classes"]):
         # operands with unknown divisions and EQUAL partition counts are combined partition by partition
